@@ -5,6 +5,7 @@ mod fe;
 mod gen;
 mod model;
 mod props;
+mod srcgen;
 mod tracekit;
 mod vm;
 
@@ -17,6 +18,37 @@ fn main() {
         std::process::exit(2);
     }
     let prop = args[1].clone();
+    if prop == "dev-rt" {
+        use assembly::ast::{AstSerdeOptions, ProgramAst};
+        use vm_core::utils::SliceReader;
+        let src = std::fs::read_to_string(&args[2]).unwrap();
+        let ast = ProgramAst::parse(&src).unwrap();
+        let mut loc = Vec::new();
+        ast.write_source_locations(&mut loc);
+        let mut back = ProgramAst::from_bytes(&ast.to_bytes(AstSerdeOptions::new(true))).unwrap();
+        back.load_source_locations(&mut SliceReader::new(&loc)).unwrap();
+        println!("PartialEq: {}", ast == back);
+        let strip = |s: String| -> String {
+            // drop location lists from the debug output
+            let mut out = String::new();
+            let mut rest = s.as_str();
+            while let Some(i) = rest.find("locations: [") {
+                out.push_str(&rest[..i]);
+                let j = rest[i..].find(']').unwrap() + i;
+                rest = &rest[j + 1..];
+            }
+            out.push_str(rest);
+            out
+        };
+        let (a, b) = (strip(format!("{:?}", ast)), strip(format!("{:?}", back)));
+        if a == b {
+            println!("EQUAL");
+        } else {
+            let i = a.bytes().zip(b.bytes()).position(|(x, y)| x != y).unwrap_or(0);
+            println!("DIFF at {}:\n  orig: {}\n  back: {}", i, &a[i.saturating_sub(150)..(i + 150).min(a.len())], &b[i.saturating_sub(150)..(i + 150).min(b.len())]);
+        }
+        return;
+    }
     if prop == "dev" {
         dev(&args[2..]);
         return;
@@ -56,6 +88,7 @@ fn main() {
             "C06" => props::c06::replay(&ctx, &v),
             "C07" => props::c07::replay(&ctx, &v),
             "C08" => props::c08::replay(&ctx, &v),
+            "C10" => props::c10::replay(&ctx, &v),
             "C12" => props::c12::replay(&ctx, &v),
             "C13" => props::c13::replay(&ctx, &v),
             "C14" => props::c14::replay(&ctx, &v),
@@ -77,6 +110,7 @@ fn main() {
             "C06" => props::c06::run(&ctx),
             "C07" => props::c07::run(&ctx),
             "C08" => props::c08::run(&ctx),
+            "C10" => props::c10::run(&ctx),
             "C12" => props::c12::run(&ctx),
             "C13" => props::c13::run(&ctx),
             "C14" => props::c14::run(&ctx),
